@@ -130,6 +130,7 @@ def interop(ctx, label, key, cls):
 
 
 def malformed(ctx, pop, classes):
+    from joserfc.jwk import JWKRegistry, KeySet
     rng = ctx.rng
     seen = set()
     for label, key in pop:
@@ -152,6 +153,13 @@ def malformed(ctx, pop, classes):
                 cases.append((f"undecodable-{m}", dict(base, **{m: base[m][:-1] + "*"})))
                 cases.append((f"undecodable-{m}", dict(base, **{m: base[m][:1] + " " + base[m][1:]})))
                 cases.append((f"undecodable-{m}", dict(base, **{m: base[m] + "+"})))
+        # the required member "kty" itself: missing, retyped, or not the type of the class the dict is imported as
+        cases.append(("delete-kty", {m_: v_ for m_, v_ in base.items() if m_ != "kty"}))
+        for v in RETYPE[:-1]:
+            cases.append(("retype-kty", dict(base, kty=v)))
+        other_kty = {"oct": "RSA", "RSA": "EC", "EC": "OKP", "OKP": "oct"}[key.key_type]
+        for v in (other_kty, key.key_type.lower() + "x", "", key.key_type + " "):
+            cases.append(("corrupt-kty", dict(base, kty=v)))
         for v in ([], ["sig"], 7, "foo", "SIG", None, True):
             cases.append(("bad-use", dict(base, use=v)))
         for v in ("sign", ["foo"], [1], 7, None, {"a": 1}):
@@ -192,6 +200,17 @@ def malformed(ctx, pop, classes):
                 out = err_name(e)
             if out == "accepted":
                 ctx.report(f"malformed JWK ({note}) accepted at import", {"key": label, "note": note, "jwk": d}, f"malformed:{key.key_type}:{note.split('-')[0]}")
+            # every other import route
+            for route, f in (("registry", lambda x: JWKRegistry.import_key(x)), ("registry+key_type", lambda x, kt=key.key_type: JWKRegistry.import_key(x, key_type=kt)),
+                             ("key-set", lambda x: KeySet.import_key_set({"keys": [x]}))):
+                try:
+                    f(copy.deepcopy(d))
+                    ctx.report(f"malformed JWK ({note}) accepted at import via {route}", {"key": label, "note": note, "jwk": d, "route": route},
+                               f"malformed:{key.key_type}:{note.split('-')[0]}:{route}")
+                except (NameError, ImportError):
+                    raise
+                except Exception:  # noqa: BLE001
+                    pass
             try:
                 lines.append((f"key.validate {key.key_type} {enc_jval(d)}", d, note))
             except wire.Unencodable:
